@@ -318,6 +318,19 @@ def run(ctx):
                             "ktag": "K:corpus", "ctag": "c:random", "testnet": bool(n & 1),
                             "form": ("ctor", "str")[n % 2], "index": i}
                     judge_ckd_pub(ctx, case)
+        # parents whose 4-byte fingerprints COLLIDE, used one after the other in this process, same chain code and index
+        # (a truncated identifier is not an identity)
+        for pi, (ka, kb) in enumerate(gen.fingerprint_collisions()):
+            n += 1
+            if not ctx.mine(n):
+                continue
+            cc = gen.rbytes(rnd, 32)
+            for order in ((ka, kb), (kb, ka), (ka, kb)):
+                for k in order:
+                    for i in (0, 7, H - 1):
+                        judge_ckd_pub(ctx, {"k": k, "c": cc, "depth": 0, "pindex": 0, "pfp": b"\x00" * 4, "ktag": "K:fingerprint-collision",
+                                            "ctag": "c:random", "testnet": bool(pi & 1), "form": ("ctor", "str", "bytes")[pi % 3], "index": i})
+            ctx.extra["fingerprint_collision_pairs"] = ctx.extra.get("fingerprint_collision_pairs", 0) + 1
         recent = []
         for _ in range(ctx.scale(2200, 300000)):
             if recent and rnd.random() < 0.35:
